@@ -4,8 +4,8 @@
                                  the pre-release flag (pinned || allow), and an sdist only if allowed
      good rq c                 = metadata readable and normalised name = the requested one
      answer_flag st rq cs      = allow_prereleases of the pass (first / fallback) that answered
-     pass_exhausted ...        = nothing eligible is readable, or `budget` distinct versions
-                                 (each >= every eligible readable one) failed *)
+     pass_exhausted ...        = none_good (nothing eligible is readable) or budget_cut (`budget` distinct
+                                 versions, each >= every eligible readable one, failed: the pass gave up) *)
 From Coq Require Import List String Bool ZArith.
 From RC Require Import lib.Lex lib.Pep440 lib.Name model.Merge gen.C03Consts model.SelectC03 proofs.SelectC03P.
 
@@ -61,29 +61,17 @@ Theorem C03_prerelease_only_when :
 Proof. exact prerelease_only_when. Qed.
 Print Assumptions C03_prerelease_only_when.
 
-Theorem C03_prerelease_declarative_partial :
+Theorem C03_prerelease_declarative :
   forall st rq cs c, get_dist st rq cs = Found c -> is_prerelease (ver c) = true ->
-  allow_pre st = true \/ pinned_exactly rq c \/ nothing_but_prereleases st rq cs \/
-  finals_cut_by_budget st rq cs.
-Proof. exact prerelease_declarative_partial. Qed.
-Print Assumptions C03_prerelease_declarative_partial.
-
-Theorem C03_prerelease_declarative_unbounded :
-  forall st rq cs c, budget st = None -> get_dist st rq cs = Found c -> is_prerelease (ver c) = true ->
-  allow_pre st = true \/ pinned_exactly rq c \/ nothing_but_prereleases st rq cs.
-Proof. exact prerelease_declarative_unbounded. Qed.
-Print Assumptions C03_prerelease_declarative_unbounded.
-
-Theorem C03_prerelease_declarative_refuted :
-  ~ (forall st rq cs c, get_dist st rq cs = Found c -> is_prerelease (ver c) = true ->
-     allow_pre st = true \/ pinned_exactly rq c \/ nothing_but_prereleases st rq cs).
-Proof. exact prerelease_declarative_refuted. Qed.
-Print Assumptions C03_prerelease_declarative_refuted.
+  allow_pre st = true \/ pinned_exactly rq c \/
+  (forall g, eligible st rq cs true g -> good rq g -> is_prerelease (ver g) = true).
+Proof. exact prerelease_declarative. Qed.
+Print Assumptions C03_prerelease_declarative.
 
 Theorem C03_select_complete :
   forall st rq cs, get_dist st rq cs = NoCandidate ->
   pass_exhausted st rq cs (allow_pre st) /\
-  (fallback_cond rq cs = true -> pass_exhausted st rq cs true).
+  (fallback_cond rq cs = true -> pass_exhausted st rq cs true \/ budget_cut st rq cs (allow_pre st)).
 Proof. exact select_complete. Qed.
 Print Assumptions C03_select_complete.
 
@@ -97,9 +85,9 @@ Theorem C03_fallback_recursion :
   forall st rq cs,
   do_get_candidate st rq cs false =
   match attempt st rq cs (allow_pre st) with
-  | Some c => Found c
-  | None => if fallback_cond rq cs && negb (allow_pre st)
-            then do_get_candidate st rq cs true else NoCandidate
+  | SFound c => Found c
+  | r => if fallback_cond rq cs && negb (allow_pre st) && negb (gave_up r)
+         then do_get_candidate st rq cs true else NoCandidate
   end.
 Proof. exact do_get_candidate_unfold. Qed.
 Print Assumptions C03_fallback_recursion.
